@@ -49,20 +49,21 @@ RANDOMISED_BY_DESIGN = {('kde', None, 15, False), ('univariate', 'selection-samp
 
 def bounds(tier):
     return {'uni_configs': len(UNI_CONFIGS), 'datasets_per_kind': {'uni': 5, 'biv': 4, 'gm': 6, 'vine': 5},
-            'depth': {'fast': 3, 'slow': 2}, 'poisons': ['nan', 0.0, 0.731, -0.9]}
+            'depth': {'fast': 3 if tier == 'quick' else 4, 'slow': 2 if tier == 'quick' else 3}, 'poisons': ['nan', 0.0, 0.731, -0.9]}
 
 
 def cases(tier, seed):
     out = []
+    deep = 0 if tier == 'quick' else 1
     for c in UNI_CONFIGS:
         slow = c[0] == 'univariate'
-        out.append(('refit', 'uni', c, 2 if slow else 3))
+        out.append(('refit', 'uni', c, (2 if slow else 3) + deep))
     for f in ('clayton', 'gumbel', 'frank'):
-        out.append(('refit', 'biv', f, 3))
-    for c in ('gaussian-class', 'kde-instance', 'default'):
-        out.append(('refit', 'gm', c, 2))
+        out.append(('refit', 'biv', f, 3 + deep))
+    for c in ('gaussian-class', 'kde-instance', 'default') + (() if tier == 'quick' else ('dict', 'uniform-name')):
+        out.append(('refit', 'gm', c, 2 + (deep if c != 'default' else 0)))
     for v in ('center', 'direct', 'regular'):
-        out.append(('refit', 'vine', v, 2))
+        out.append(('refit', 'vine', v, 2 + deep))
     out.append(('unfitted', 0, 0, 0))
     out.append(('invalid', 0, 0, 0))
     out.append(('get_instance', 0, 0, 0))
